@@ -93,7 +93,7 @@ static void cb_reset(cb_t *c, uint64_t seed, uint64_t idx, const int *script, in
 }
 
 static unsigned long long n_eval, n_ops, n_gen, n_feed, n_reseed, n_setlimit, n_events, n_auto_events, n_bytes_out,
-    n_bytes_cmp, n_status, n_twin, n_seq_exh, n_budget_segments, n_null_runs, n_patterns, n_distinct_blocks_checked, n_long_streams;
+    n_bytes_cmp, n_status, n_twin, n_seq_exh, n_budget_segments, n_null_runs, n_patterns, n_distinct_blocks_checked, n_long_streams, n_near_wrap;
 static unsigned long long max_since = 0;
 
 static uint8_t *g_out = NULL, *g_sent = NULL, *g_exp = NULL;
@@ -366,6 +366,48 @@ static void budget_sequence(const args_t *a, long idx, const int *seq, int len)
     n_events += cb.nev;
     cls_add(mix64(0xB0D6, (uint64_t)idx));
     if (idx % 50021 == 0 || a->only >= 0) emit_sample();
+}
+
+/* hooks compiled into /repo only with -DRWEATHER_TINYJAMBU_VERIF (absent from the cmake production build) */
+extern unsigned long tinyjambu_prng_verif_get_counter(const tinyjambu_prng_state_t *state) __attribute__((weak));
+extern void tinyjambu_prng_verif_set_counter(tinyjambu_prng_state_t *state, unsigned long value) __attribute__((weak));
+
+/* Histories that need ~2^32 feed calls (hours) through the API: the hook places the block counter k below the top of
+ * its 32-bit range - the state that 2^32-1-k-1 feeds since the last seeding produce - and the last feeds, the limit
+ * change and the generation then go through the API under the same byte-budget and twin monitors. */
+static void budget_near_wrap(const args_t *a, long idx, unsigned k, unsigned nfeeds, size_t limit)
+{
+    tinyjambu_prng_state_t st, tw;
+    static cb_t cb;
+    budget_t b = {0, 1024, 0};
+    rng_t r = rng_for(a->seed, 0xB0D8, (uint64_t)idx);
+    uint8_t fed[8] = {1, 2, 3, 4, 5, 6, 7, 8};
+    unsigned i;
+    size_t e0, e1, oa, ob, n = bound_for(limit) + 96;
+    char ctx[96];
+    snprintf(ctx, sizeof ctx, "counter placed at 2^32-1-%u, then %u feeds, limit %zu", k, nfeeds, limit);
+    set_case("{\"h\":\"prng\",\"mode\":\"budget-near-counter-wrap\",\"i\":%ld,\"counter\":\"2^32-1-%u\",\"feeds\":%u,\"limit\":%zu}", idx, k, nfeeds, limit);
+    ++n_eval; ++n_near_wrap;
+    cls_add(mix64(0xB0D8, (uint64_t)idx));
+    if (idx % 13 == 0 || a->only >= 0) emit_sample();
+    cb_reset(&cb, a->seed, (uint64_t)idx, NULL, 0, 0);
+    tinyjambu_prng_init_user(&st, entropy_cb, &cb, NULL, 0);
+    tinyjambu_prng_set_reseed_limit(&st, limit); b.limit = limit;
+    tinyjambu_prng_verif_set_counter(&st, 0xFFFFFFFFul - k);
+    for (i = 0; i < nfeeds; ++i) { tinyjambu_prng_feed(&st, fed, i & 7); ++n_feed; }
+    /* twin: one more feed must not move the next entropy request further away */
+    memcpy(&tw, &st, sizeof st);
+    tinyjambu_prng_feed(&tw, fed, 3);
+    e0 = cb.nev;
+    lib_generate(&st, &cb, n, &r);
+    budget_generate(&b, &cb, e0, n, ctx);
+    oa = cb.nev > e0 ? cb.ev[e0].off : n + 1;
+    e1 = cb.nev;
+    lib_generate(&tw, &cb, n, &r);
+    ob = cb.nev > e1 ? cb.ev[e1].off : n + 1;
+    ++n_twin;
+    if (ob > oa) emit_viol("feed-delays-reseed", "%s: after ONE MORE feed the next entropy request came after %zu bytes instead of %zu", ctx, ob, oa);
+    n_events += cb.nev;
 }
 
 static void budget_random(const args_t *a, long idx)
@@ -655,6 +697,12 @@ int main(int argc, char **argv)
             }
         }
         for (i = 0; i < a.p3; ++i, ++idx) if (mine(&a, idx)) budget_random(&a, idx);
+        if (tinyjambu_prng_verif_set_counter) {
+            static const size_t LIMS[4] = {0, 64, 1024, 1048576};
+            unsigned k, f, l;
+            for (k = 0; k < 5; ++k) for (f = 0; f < 9; ++f) for (l = 0; l < 4; ++l, ++idx)
+                if (mine(&a, idx)) budget_near_wrap(&a, idx, k, f, LIMS[l]);
+        } else if (a.batch == 0) emit_info("near-counter-wrap histories skipped: this build has no RWEATHER_TINYJAMBU_VERIF hook");
     } else if (!strcmp(a.mode, "faults")) {
         int p, s[12], c;
         static const size_t CL[3] = {0, 5, 100};
@@ -680,7 +728,7 @@ int main(int argc, char **argv)
     emit_stat("automatic_reseed_events_predicted", n_auto_events); emit_stat("bytes_generated", n_bytes_out); emit_stat("bytes_compared_with_shadow", n_bytes_cmp);
     emit_stat("seed_status_judged", n_status); emit_stat("twin_feed_runs", n_twin); emit_stat("exhaustive_sequences", n_seq_exh);
     emit_stat("budget_segments_checked", n_budget_segments); emit_max("max_bytes_between_requests", max_since);
-    emit_stat("max_limit_megabyte_streams_checked", n_long_streams); emit_stat("null_callback_child_runs", n_null_runs); emit_stat("delivery_patterns", n_patterns); emit_stat("block_pairs_checked_distinct", n_distinct_blocks_checked);
+    emit_stat("near_counter_wrap_histories", n_near_wrap); emit_stat("max_limit_megabyte_streams_checked", n_long_streams); emit_stat("null_callback_child_runs", n_null_runs); emit_stat("delivery_patterns", n_patterns); emit_stat("block_pairs_checked_distinct", n_distinct_blocks_checked);
     finish();
     return 0;
 }
